@@ -682,9 +682,6 @@ def encoding_leg(ctx, groups):
             for v, inr in vals:
                 sx = "(int %d)" % v if ms[0].kind == "int" else "(os %s)" % ("ab" * v if v else "-")
                 for syn in ("uper", "oer"):
-                    lbv, ubv = ms[0].ev.vis.lb(), ms[0].ev.vis.ub()
-                    if syn == "uper" and ms[0].kind == "int" and lbv is not None and lbv != 0 and ubv is None:
-                        continue     # INTEGER_encode_uper refuses semi-constrained types with lb != 0 (known finding F42 of C01)
                     for m in ms:
                         lines.append("@%s enc %s %s" % (m.name, syn, sx)); owner.append((gi, v, syn, m, inr))
         outs, crashes = ctx.run_c_bisect(exe, lines)
